@@ -93,7 +93,7 @@ def eval_case(case):
 TIMESTAMPS = [1.0, 0.1, 1e-7, 1e22, -5.5, 1417653453.026288, 123456789.12345679, 5e-324, 1.7976931348623157e308]
 DESC_ALPHA = ["a", " ", "\"", "'", "#"]
 LONG_DESCS = ["Fedora 20", "Red Hat Enterprise Linux 7.0 \"Maipo\" Server", "Näme 日本 21"]
-DISC_NUMBERS = [["ALL"], [1], [1, 2, 3], [10, 2]]
+DISC_NUMBERS = [["ALL"], [1], [1, 2, 3], [10, 2], [2, 10], [9, 10, 11], [3, 1, 2]]
 
 
 def descriptions():
@@ -218,7 +218,7 @@ def describe(tier):
                 "none/1of1/2of3; checksums md5/sha1/sha256/sha512 added/removed) from 5 seeds (flat, src, layered+media, "
                 "nested depth 3, Server-optional tree).  Every state: build -> dump -> loads -> observe == spec -> dump byte-identical; again from "
                 "the re-loaded parent.  discinfo: full grid of 9 timestamps x all descriptions of length <= 3 over "
-                "{a, blank, \", ', #} inside the domain + 3 long ones x 3 arches x 4 disc-number lists.  Non-trivial: a tree with "
+                "{a, blank, \", ', #} inside the domain + 3 long ones x 3 arches x 7 disc-number lists (ascending, descending, two-digit).  Non-trivial: a tree with "
                 "more than one variant or any optional section; a discinfo with a multi-character description or disc list.",
         "bound": "deviation bound k = %d edits from a seed; <= 7 variants, depth <= 3; discinfo grid complete" % bound(tier),
         "exhaustive": True,
